@@ -290,6 +290,24 @@ def r6_error_unwinding(ctx, rule="C05.R6"):
                    "the ErrorHandler::%s edge calls nothing that shrinks Context::states: an error "
                    "raised while arguments are being collected (e.g. `Foo 1 / Z`) leaves the "
                    "argument-collecting state on the context stack" % v)
+    # every (not just the innermost) argument-collecting state is dropped: the shrinking call of
+    # the routine used on the handler edges sits on a CFG cycle
+    for fid in sorted({c for v in ("Address", "Next") for c in
+                       [mir.callee_of(t) for _b, t in mir.region_calls(
+                           interp.body, mir.arm_region(interp.body, sw.bb, sw.arms.get(v, sw.otherwise)))]
+                       if c in shrinking}):
+        f = prog.fns[fid]
+        on_cycle = False
+        for b, t in f.body.calls():
+            if mir.callee_of(t) in shrinking or mir.callee_of(t) in direct or \
+                    (mir.callee_path(t).split("::")[-1] in common.VEC_SHRINK and
+                     common.receiver_field(mir.Prov(f.body), t) == "states"):
+                if b in {x for s2 in f.body.succ(b) for x in f.body.reachable(s2)}:
+                    on_cycle = True
+        ctx.decide(on_cycle, rule, "%s:%s:drops-all-argument-states" % (rule, f.name), f.loc,
+                   "the drop is iterated until a normal state is on top",
+                   "%s drops at most one argument-collecting state (the pop is not in a loop): an error "
+                   "inside nested argument evaluation leaves a state behind" % f.name)
     one = ctx.anchor_method("Interpreter", "interpret_one")
     sw1, regions = _arm_regions(prog, one, "::Instruction")
     for v in ("BuiltInSub", "BuiltInFunction"):
@@ -315,7 +333,7 @@ def r6_error_unwinding(ctx, rule="C05.R6"):
                    "callee context that PushStack created; after a handled error (RESUME NEXT) "
                    "the caller runs on the built-in's variables" % v)
     ctx.analysed_units(rule, shrinkers=sorted(x.split("::")[-1] for x in direct))
-    ctx.require(rule, 4)
+    ctx.require(rule, 5)
 
 
 def run(ctx):
